@@ -67,6 +67,11 @@ type ExecutionContext struct {
 	template   *Template
 	macroDepth int
 
+	// nodeState holds the per-execution state of stateful tag nodes (like
+	// cycle, ifchanged). It is shared between all ExecutionContexts of one
+	// execution, so that the compiled template itself is never modified.
+	nodeState map[any]any
+
 	Autoescape bool
 	Public     Context
 	Private    Context
@@ -89,6 +94,7 @@ func newExecutionContext(tpl *Template, ctx Context) *ExecutionContext {
 		Public:     ctx,
 		Private:    privateCtx,
 		Autoescape: autoescape,
+		nodeState:  make(map[any]any),
 	}
 }
 
@@ -99,6 +105,7 @@ func NewChildExecutionContext(parent *ExecutionContext) *ExecutionContext {
 		Public:     parent.Public,
 		Private:    make(Context),
 		Autoescape: parent.Autoescape,
+		nodeState:  parent.nodeState,
 	}
 	newctx.Shared = parent.Shared
 
@@ -106,6 +113,14 @@ func NewChildExecutionContext(parent *ExecutionContext) *ExecutionContext {
 	newctx.Private.Update(parent.Private)
 
 	return newctx
+}
+
+// getNodeState returns the per-execution state storage for tag nodes.
+func (ctx *ExecutionContext) getNodeState() map[any]any {
+	if ctx.nodeState == nil {
+		ctx.nodeState = make(map[any]any)
+	}
+	return ctx.nodeState
 }
 
 func (ctx *ExecutionContext) Error(msg string, token *Token) *Error {
